@@ -72,6 +72,12 @@ fn stdin_line(rng: &mut Rng) -> Vec<u8> {
             v.insert(at + k, b);
         }
     }
+    // a line that is not valid UTF-8 cannot be read: the service reports that and changes nothing; the line is gone
+    // and the NEXT read gets the next line
+    if rng.chance(1, 10) {
+        let bad: [&[u8]; 4] = [&[0xFF, 0xFE, b'a'], &[0xC3], &[b'o', b'k', 0x80], &[0xE2, 0x82]];
+        return bad[rng.below(4)].to_vec();
+    }
     // trailing blanks are part of the line
     if rng.chance(1, 8) {
         let blanks: [&str; 4] = [" ", "  ", "\t", " \t "];
@@ -304,11 +310,24 @@ fn run_scenario(rep: &Report, sc: &Scenario, core: Option<usize>) {
         let mut exp_out: Vec<u8> = Vec::new();
         let mut al_accept: Vec<u8> = Vec::new();
         let mut mem_checked = false;
+        // the line offered to this call cannot be read (not valid UTF-8): a report on stdout, nothing else changes
+        let mut unreadable = false;
         match (int_no, ah) {
             (0x21, 2) => {
                 let dl = r.regs[DX] as u8;
                 exp_out.push(dl);
                 al_accept.push(dl);
+            }
+            (0x21, 1) if std::str::from_utf8(rest.split(|b| *b == b'\n').next().unwrap_or(&[])).is_err() => {
+                let _ = take_line(&mut rest);
+                unreadable = true;
+                al_accept.push(r.regs[AX] as u8);
+                rep.count("console reads that met a line which is not valid UTF-8", 1);
+            }
+            (0x21, 0x0A) if std::str::from_utf8(rest.split(|b| *b == b'\n').next().unwrap_or(&[])).is_err() => {
+                let _ = take_line(&mut rest);
+                unreadable = true;
+                rep.count("console reads that met a line which is not valid UTF-8", 1);
             }
             (0x21, 1) => {
                 let l = take_line(&mut rest);
@@ -402,7 +421,7 @@ fn run_scenario(rep: &Report, sc: &Scenario, core: Option<usize>) {
         }
         rep.count("supported service calls judged", 1);
         rep.distinct_str(&format!("{}|cx{}|out{}", name, r.regs[CX].min(3), exp_out.len().min(3)));
-        if !bytes_match(&exp_out, written) {
+        if !unreadable && !bytes_match(&exp_out, written) {
             fail(
                 format!("svc:{}:stdout", name),
                 "C18: the bytes a console service writes differ from the documented ones".into(),
